@@ -1,4 +1,4 @@
 SPECIFICATION FairSpec
-CONSTANTS Threads <- T  Nexts <- N  Scheds <- S  Scenarios <- Scn
+CONSTANTS Threads <- T  Nexts <- N  Scheds <- S  Scenarios <- Scn  Variant = "ok"
 PROPERTY Terminates
 CHECK_DEADLOCK TRUE
